@@ -173,10 +173,15 @@ def _run_system(item):
     df = popgen.population(rng, d, n_hh=int(rng.integers(5, 12)), params=params)
     # shuffle rows: the canonical adults-first order is exactly what the tests already do
     df = df.iloc[rng.permutation(len(df))].reset_index(drop=True)
-    tr, nodes, roots, dag, fn = env.trace(df, params, functions, rounding=False)
-    kinds = env.classify(fn)
     res = dict(kind="system", date=item["date"], rows=0, rules=0, violations=[], rule_names=[],
                pop=popgen.digest(df), int_first_row=0)
+    try:
+        tr, nodes, roots, dag, fn = env.trace(df, params, functions, rounding=False)
+    except Exception as e:  # noqa: BLE001 - completeness is C08's business; here the run just yields nothing to compare
+        res["system_run_raised"] = f"{type(e).__name__}: {str(e)[:120]}"
+        res["sample"] = popgen.describe(df)
+        return res
+    kinds = env.classify(fn)
     for nme in nodes:
         if kinds[nme] != "rule" or nme not in functions or not shadow.is_scalar_rule(functions[nme]):
             continue
@@ -287,6 +292,9 @@ def summarize(results, tier, seed):
     for r in system:
         sys_rules |= set(r["rule_names"])
     inconclusive = []
+    raised = [r["system_run_raised"] for r in system if r.get("system_run_raised")]
+    if len(raised) > 0.2 * max(1, len(system)):
+        inconclusive.append(f"{len(raised)} of {len(system)} system runs raised: {raised[0]}")
     if all_rules and len(exercised) < 0.85 * len(all_rules):
         inconclusive.append(f"only {len(exercised)} of {len(all_rules)} rules exercised by the single-node harness")
     distinct = len({(r["rule"], r["date"]) for r in single if r["status"] == "ok"}) + len({r["pop"] for r in system})
